@@ -235,7 +235,7 @@ theorem writeValues_noUB (p : Param) (count : Nat)
   cases ht : p.type <;> simp only [ht] at h ⊢
   all_goals (first | (split <;> first | omega | simp) | simp)
 
-theorem Param.write_noUB (p : Param) (gid : Int) (h : ParamWF p) : (p.write gid).NoUB := by
+theorem Param.write_noUB (p : Param) (gid : Int) (ip : Bool) (h : ParamWF p) : (p.write gid ip).NoUB := by
   unfold Param.write
   apply Res.noUB_bind
   · unfold Param.writeData
@@ -278,12 +278,12 @@ theorem Param.write_noUB (p : Param) (gid : Int) (h : ParamWF p) : (p.write gid)
   · intro ⟨vals, slot⟩; exact Res.noUB_ok _
 
 
-theorem writeParamList_noUB (gid : Int) (ps : List Param) (h : ∀ p ∈ ps, ParamWF p) : (writeParamList gid ps).NoUB := by
+theorem writeParamList_noUB (gid : Int) (ip : Bool) (ps : List Param) (h : ∀ p ∈ ps, ParamWF p) : (writeParamList gid ip ps).NoUB := by
   induction ps with
   | nil => exact Res.noUB_ok _
   | cons p rest ih =>
     unfold writeParamList
-    apply Res.noUB_bind (Param.write_noUB p gid (h p (by simp))); intro ⟨b, s1⟩
+    apply Res.noUB_bind (Param.write_noUB p gid ip (h p (by simp))); intro ⟨b, s1⟩
     apply Res.noUB_bind (ih (fun q hq => h q (by simp [hq]))); intro ⟨bs, s2⟩
     exact Res.noUB_ok _
 
@@ -297,7 +297,7 @@ theorem writeGroupList_noUB (gs : List Group) (i : Nat) (h : ∀ g ∈ gs, ∀ p
     · split
       · exact Res.noUB_ok _
       · unfold Group.write
-        exact Res.noUB_bind (writeParamList_noUB _ _ (h g (by simp))) (fun _ => Res.noUB_ok _)
+        exact Res.noUB_bind (writeParamList_noUB _ _ _ (h g (by simp))) (fun _ => Res.noUB_ok _)
     · intro ⟨b, s1⟩
       apply Res.noUB_bind (ih (i + 1) (fun g' hg' => h g' (by simp [hg']))); intro ⟨bs, s2⟩
       exact Res.noUB_ok _
